@@ -18,6 +18,8 @@ REPO = G.REPO
 SEMANTIC = [
     (re.compile(r'^postcondition not satisfied'), 'postcondition'),
     (re.compile(r'^precondition not satisfied'), 'precondition-at-call'),
+    (re.compile(r'^unable to prove post-?condition of closure'), 'closure-postcondition'),
+    (re.compile(r'^unable to prove pre-?condition of closure'), 'precondition-at-call'),
     (re.compile(r'^invariant not satisfied at end of loop body'), 'invariant-preserved'),
     (re.compile(r'^invariant not satisfied before loop'), 'invariant-established'),
     (re.compile(r'^loop invariant not satisfied'), 'invariant'),
